@@ -78,6 +78,15 @@ static int ref_enc(unsigned c, char *d)
  * system calls (the harnesses wrap read/write), everything else exits with status 127 and no output.
  * Drive/Ex.lean `builtinPipe` is the same table on the model's side. */
 #include <sys/syscall.h>
+#if defined(__has_feature)
+#if __has_feature(memory_sanitizer)
+#include <sanitizer/msan_interface.h>
+#define VERIF_UNPOISON(p, n)	__msan_unpoison((p), (n))
+#endif
+#endif
+#ifndef VERIF_UNPOISON
+#define VERIF_UNPOISON(p, n)	((void) 0)
+#endif
 #include <fcntl.h>
 #include <unistd.h>
 #include <sys/stat.h>
@@ -124,6 +133,7 @@ static void verif_shell(const char *cmd)
 	}
 	if (!strcmp(cmd, "cat") || upper) {
 		while ((n = syscall(SYS_read, 0, buf, sizeof(buf))) > 0) {
+			VERIF_UNPOISON(buf, n);		/* filled by a raw system call */
 			if (upper)
 				for (k = 0; k < n; k++)
 					if (buf[k] >= 'a' && buf[k] <= 'z')
@@ -135,8 +145,10 @@ static void verif_shell(const char *cmd)
 		_exit(0);
 	}
 	if (!strcmp(cmd, "sed 1q")) {		/* reads everything, prints the first line */
-		while (len < (long) sizeof(ibuf) && (n = syscall(SYS_read, 0, ibuf + len, sizeof(ibuf) - len)) > 0)
+		while (len < (long) sizeof(ibuf) && (n = syscall(SYS_read, 0, ibuf + len, sizeof(ibuf) - len)) > 0) {
+			VERIF_UNPOISON(ibuf + len, n);
 			len += n;
+		}
 		for (k = 0; k < len && ibuf[k] != '\n'; k++)
 			;
 		if (k < len)
